@@ -23,6 +23,13 @@ def modelledState : List ((String × String) × String) :=
 `PEP._reset_classes`** -/
 theorem reset_covers : ∀ x ∈ Gen.Inventory.mutated, x ∈ Gen.Inventory.reset := by decide
 
+/-- mutable containers created once at class level (shared by all instances and all models of a process) are all
+re-created by the reset; a container that `__init__` rebinds on the instance is not shared -/
+theorem shared_containers_reset : ∀ x ∈ Gen.Inventory.sharedContainers, x ∈ Gen.Inventory.reset := by decide
+
+/-- every `PEP()` resets: the call is an unconditional statement of `PEP.__init__` -/
+theorem reset_unconditional : Gen.Inventory.resetInInit = true := by decide
+
 /-- the reset assigns each attribute its class-level initial value -/
 theorem reset_restores_initial :
     ∀ x ∈ Gen.Inventory.resetValues, x ∈ Gen.Inventory.initial := by decide
